@@ -55,9 +55,9 @@ CHECKS = {
     "C14": ("Coq proof at R (exp/ln compounding, population variance, scale invariance) + bit-exact correspondence with observed libm table",
             "c14_period, c14_total, c14_total_no_flows, c14_best/_worst, c14_vol, c14_cagr, c14_sharpe, c14_scale, c14_vectors.",
             TB + R_AX + "ln/exp/powf are the mathematical functions in the theorems; the platform libm's values are observed per run (table), not modelled.", "3/C14"),
-    "C15": ("Coq proof at R: scan loop invariant (prefix maximum, minimum since, best pair so far) + bit-exact correspondence",
-            "c15_scan, c15_bounds, c15_monotone, c15_calculate (value is the minimum over i <= j; reported dates realise it, start <= end).",
-            TB + R_AX, "3/C15"),
+    "C15": ("Coq proof at R AND at the IEEE binary64 instance (monotone rounding, via Flocq): scan loop invariant (prefix maximum, minimum since, best pair so far) + bit-exact correspondence",
+            "c15_scan, c15_bounds, c15_monotone, c15_calculate at R (value is the minimum over i <= j; reported dates realise it, start <= end). AT THE IEEE INSTANCE (Props/C15float.v): for every non-empty path of finite positive binary64 values the scan's answer IS the float expression v_end / v_start - 1.0 at the reported positions start <= end and is <= v_j / v_i - 1.0 (both roundings, overflow to +inf included) for every i <= j, lies in [-1, 0], and is +0.0 on a path that never falls (c15f_scan, c15f_bounds, c15f_monotone) - no real-number idealisation of the scan is left; the compounding of the index from the returns (one multiplication per period) is the part still stated over R.",
+            TB + R_AX + "Props/C15float.v additionally depends on the specification axioms the standard library declares for primitive floats (FloatAxioms.div_spec, sub_spec, leb_spec, ltb_spec, eqb_spec, opp_spec, abs_spec, Prim2SF_valid, SF2Prim_Prim2SF, Prim2SF_SF2Prim), listed by name in the evidence.", "3/C15, 8.2"),
     "C16": ("Coq proof: composition model (strategy + broker + eager client + Uist server + exchange): run() performs exactly N updates by the server clock lemma; ncf ledger and 'no value from trading' invariant at R + step-wise correspondence and direct reading of whole run() calls",
             "c16_run_walks_dataset, c16_update_is_one_tick, c16_run_fuel_irrelevant (termination after exactly N updates, snapshot dates = clock after each tick), c16_cash_flow over all histories, c16_constant_prices_end_to_end — ONE theorem about the full composition: on an N-date dataset with constant zero-spread prices (gaps allowed) init(c) then run() performs N updates, records N snapshots, every snapshot's value equals c, for every weight map, cost list, hash order and sort oracle (c16_constant_prices_with_withdrawals: minus successful plain withdrawals); the system invariant is a state property established by the fresh start. init / update / withdrawals are compared step by step with the model; whole run() calls are judged by the direct reading (history length, dates, values, ncf).",
             TB + R_AX + "Intermediate hash orders inside one run() call are not observable, so whole run() calls are judged by the direct reading, init/update step by step against the model. The value theorem is over the reals.", "3/C16, 8.2"),
